@@ -87,3 +87,20 @@ def run(case, prefix, nontrivial):
         for m in mons:
             getattr(m, "_remove", lambda: None)()
     return result_of(ctx, mons, prefix=prefix, nontrivial=nontrivial)
+
+
+def long_case(rng, tier, algo):
+    """long-horizon run of an anytime tree bandit: crosses the powers of two 2^14 (quick) .. 2^15 (thorough), where
+    t+ = 2^ceil(log2 t) is computed from large counters; parameters keep the tree small (large thresholds)"""
+    T = int(rng.integers(16500, 17200)) if tier == "quick" or rng.random() < 0.5 else int(rng.integers(32900, 33500))
+    c = gen.algo_case(rng, algo, tier, n=T, T=T, fams=["noisy", "unit", "cl_hump", "cl_garland", "quant5"],
+                      dim=int(rng.integers(1, 3)), part=str(rng.choice(["Bin", "K3", "RBin", "DimBin"])))
+    c["params"] = {"nu": float(rng.uniform(0.5, 2.0)), "rho": float(rng.uniform(0.4, 0.7)),
+                   "c": float(rng.uniform(0.08, 0.3)), "delta": float(10 ** rng.uniform(-3, -1))}
+    if algo == "VHCT":
+        c["params"]["bound"] = float(rng.uniform(0.5, 2.0))
+    c["monitor_stride"] = 64
+    c["long_horizon"] = True
+    c.pop("midqueries", None)
+    c["_cost"] = 60.0
+    return c
